@@ -916,6 +916,10 @@ func (b *bitstream) readVarUintLen(max uint64) (uint64, uint64, error) {
 			return 0, 0, err
 		}
 
+		if val>>57 != 0 {
+			// Seven more bits do not fit in 64: the value must not wrap around.
+			return 0, 0, &SyntaxError{"varuint too large", b.pos - length - 1}
+		}
 		val <<= 7
 		val ^= uint64(c & 0x7F)
 		length++
@@ -1010,6 +1014,10 @@ func (b *bitstream) readVarIntLen(max uint64) (int64, int64, uint64, error) {
 			return 0, 0, 0, err
 		}
 
+		if val>>56 != 0 {
+			// Seven more bits do not fit in 63: the magnitude must not wrap around.
+			return 0, 0, 0, &SyntaxError{"varint too large", b.pos - length - 1}
+		}
 		val <<= 7
 		val ^= int64(c & 0x7F)
 		length++
